@@ -6,7 +6,7 @@
    rational arithmetic from the parameters and compares with the recorded doubles (relative 1e-9). *)
 Require Import QArith Qabs List Bool.
 Import ListNotations.
-Require Import IPV.C12.MiniPrelude IPV.C12.RK IPV.Gen.Gen_C12_Tableau IPV.C12.RKProofs.
+Require Import IPV.C12.MiniPrelude IPV.C12.RK IPV.Gen.Gen_C12_Tableau IPV.C12.Inst.
 Open Scope Q_scope.
 
 Definition close (a b : Q) : bool :=
@@ -42,6 +42,15 @@ Definition trace_ok (lam r1 m0 T tol : Q) (rs : list rec) : bool :=
   let f := trace_rate lam r1 in
   let first := points CK f 0 0 T m0 in
   let err := Qred (Qabs (step_est CK f 0 0 T m0) / tol) in
+  let a1 := k1 CK f 0 0 T m0 in
+  if Qltb g_moles_max (Qabs a1) then
+    (* first rate larger than moles_max: step reduced at once (MOLES_TOO_LARGE), evaluations 2..6 use the new h *)
+    let h' := g_h_reduce T (Qabs a1 / g_moles_max) in
+    match rs with
+    | [] => false
+    | r1 :: rest => close (rM r1) m0 && close (rT r1) 0 && close (rH r1) T && match_points h' (tl (points CK f 0 0 h' m0)) rest
+    end
+  else
   match_points T first rs &&
   match skipn 6 rs with
   | [] => false
